@@ -121,8 +121,9 @@ partial def parsePOpts (n : Nat) (toks : List String) (acc : List OptionText.POp
     let (tree, rest') ← parseTree rest
     let (sub, root) := OptionText.simplified full tree (treeDepth tree)
     -- no source info in the kernel stream: single line, in line with the parent
-    let p : OptionText.POpt := ⟨OptionText.optionName rel sub, root, OptionText.inlineString true root, true⟩
-    parsePOpts (n - 1) rest' (p :: acc)
+    let ps : List OptionText.POpt := (OptionText.statements root).map fun v =>
+      ⟨OptionText.optionName rel sub, v, OptionText.inlineString true v, true⟩
+    parsePOpts (n - 1) rest' (ps.reverse ++ acc)
   | _ => none
 
 def step (line : String) : String :=
